@@ -288,6 +288,19 @@ pub fn main_poly(args: &[String]) -> i32 {
         e.id = inputs.len();
         inputs.push(e);
     }
+    // one input with two close pairs at the lower end of the range the `pairs` kind draws from (3e-7 and 6e-7 of the box): two
+    // almost parallel bisectors in every cell that neighbours both; own random stream, the other inputs are unchanged
+    {
+        let mut r3 = StdRng::seed_from_u64(seed ^ 0x9A1125);
+        let mut gens: Vec<DVec3> = (0..14).map(|_| DVec3::new(r3.gen_range(0.05..0.95), r3.gen_range(0.05..0.95), r3.gen_range(0.05..0.95))).collect();
+        for (k, sep) in [3.2e-7, 6.0e-7].iter().enumerate() {
+            let d = DVec3::new(r3.gen_range(-1.0..1.0), r3.gen_range(-1.0..1.0), r3.gen_range(-1.0..1.0)).normalize_or_zero();
+            let q = gens[k] + d * *sep;
+            gens.push(q);
+        }
+        let id = inputs.len();
+        inputs.push(FInput { id, kind: "pairs".into(), gens, anchor: DVec3::ZERO, width: DVec3::ONE, dim: 3, per: false });
+    }
     let mut fails: Vec<Value> = vec![];
     let mut f = std::io::BufWriter::new(std::fs::File::create(&trace_path).unwrap());
     let mut cells = 0usize;
